@@ -68,6 +68,11 @@ func gen(r *harn.Rng, tier string) interface{} {
 	}
 	for i, n := 0, r.Range(1, 5); i < n; i++ {
 		op := setOp{SleepNs: sl(), Both: r.Bool(0.3)}
+		if i > 0 && sc.Sets[i-1].Kind == "future" && sc.Sets[i-1].DurNs < int64(time.Second) && r.Bool(0.35) {
+			// set again at the very instant the previous deadline expires (its timer callback and
+			// this call are then runnable together)
+			op.SleepNs = sc.Sets[i-1].DurNs + int64(r.Pick(0, 0, 0, -1, 1))
+		}
 		switch r.Intn(10) {
 		case 8:
 			op.Kind, op.Ref = "same", r.Intn(4)
